@@ -35,21 +35,25 @@ def main():
         print(json.dumps(r, indent=1))
         return 0
     tier = a.tier if a.tier in ("quick", "thorough") else "quick"
-    ctx = common.Ctx(pid, tier, seed, a.deadline or float(os.environ.get("VERIF_DEADLINE", DEADLINE_OVERRIDES.get((pid, tier), DEADLINES[tier]))))
     mod = importlib.import_module("checks." + pid.lower())
-    try:
-        build.gc()
-        ctx.stats["ref_kat_vectors_checked"] = refbind.bind(ctx)
-        level, coverage = mod.run(ctx)
-    except build.BuildError as e:
-        # the tree does not build in a configuration the property quantifies over
-        ctx.fail("build-error:" + getattr(e, "key", "generic"), str(e)[-1500:])
-        level, coverage = mod.LEVEL, dict(mod.EMPTY_COVERAGE)
-    except Exception:
-        traceback.print_exc()
-        print("HARNESS-ERROR in %s" % pid)
-        return 2
-    return common.finish(ctx, level, coverage)
+    for attempt in (1, 2):
+        ctx = common.Ctx(pid, tier, seed, a.deadline or float(os.environ.get("VERIF_DEADLINE", DEADLINE_OVERRIDES.get((pid, tier), DEADLINES[tier]))))
+        try:
+            build.gc()
+            ctx.stats["ref_kat_vectors_checked"] = refbind.bind(ctx)
+            level, coverage = mod.run(ctx)
+        except build.BuildError as e:
+            # the tree does not build in a configuration the property quantifies over
+            ctx.fail("build-error:" + getattr(e, "key", "generic"), str(e)[-1500:])
+            level, coverage = mod.LEVEL, dict(mod.EMPTY_COVERAGE)
+        except Exception:
+            # an error of the machinery itself (not a verdict about the tree): shown, and the whole check is run once more before giving up
+            traceback.print_exc()
+            print("HARNESS-ERROR in %s (attempt %d)" % (pid, attempt))
+            if attempt == 1:
+                continue
+            return 2
+        return common.finish(ctx, level, coverage)
 
 
 if __name__ == "__main__":
